@@ -11,6 +11,8 @@ mod c12;
 mod c13;
 #[cfg(feature = "rv")]
 mod c19;
+#[cfg(feature = "rv")]
+mod c19b;
 #[cfg(feature = "ap")]
 mod c20;
 mod c18;
@@ -63,6 +65,8 @@ fn main() {
             c19::run(&mut sink, thorough, seed);
             #[cfg(feature = "rv")]
             streamraw::raw::run_c19(&mut sink, thorough, seed);
+            #[cfg(feature = "rv")]
+            c19b::run(&mut sink, thorough, seed);
         }
         "C06" => c06::run(&mut sink, thorough, seed),
         "C10" => { c10::run(&mut sink, thorough, seed); typed::run_pfxs(&mut sink, thorough, seed); streamraw::run_c10(&mut sink, thorough, seed); }
@@ -116,6 +120,8 @@ fn replay(sink: &mut common::Sink, toks: &[&str]) {
         "rfault" | "rfaultt" | "sfault" | "wfault" => c13::replay(sink, toks),
         #[cfg(feature = "rv")]
         "rawtop" | "rawstr" | "rawelems" => c19::replay(sink, toks),
+        #[cfg(feature = "rv")]
+        "rawfld" | "rawconv" => c19b::replay(sink, toks),
         "esc" | "escbufs" | "hex4" | "hex4s" | "scan" => c05::replay(sink, toks),
         "serc" | "serp" | "serbufs" | "serbufx" | "disp" => c03::replay(sink, toks),
         "dispf" | "dispn" => c03::replay(sink, toks),
